@@ -9,10 +9,8 @@ import DracoProofs.EbEncPredict
   * `eb_decode_ok_valid_partial`: the part of C03-validity that the decoder *checks* while it
     builds the point → value map of an attribute (`UpdatePointToAttributeIndexMapping`): when
     that step succeeds, every corner of every face refers to a point below `numPoints`, the map
-    has one entry per point and every entry is the invalid index or below `numPoints`.
-    What is missing for the full `eb_decode_ok_valid` (ok ⇒ `Geometry.valid`): that every point
-    occurs in some face (no entry stays invalid) and that entries are below the number of decoded
-    values; both need invariants of the connectivity loop and the traversal.
+    has one entry per point and every entry is below `numPoints` (none stays invalid: checked by the
+    decoder since the `fix:` commit dcc9947).
   * corner arithmetic used by every table operation (`Next`/`Previous` are mutually inverse,
     stay inside the face, `Next³ = id`).
   * the standard traversal decoder yields only the five topology symbols, ≤ 3 bits each.
@@ -21,27 +19,30 @@ import DracoProofs.EbEncPredict
 namespace Draco.C01Eb
 open Draco Draco.Eb
 
-/-- `UpdatePointToAttributeIndexMapping` succeeded ⇒ faces and map entries are in range. -/
+/-- `UpdatePointToAttributeIndexMapping` succeeded ⇒ faces and map entries are in range (no entry
+    stays invalid since the `fix:` commit dcc9947). -/
 theorem eb_decode_ok_valid_partial (t : TView) (faces : Array Nat) (np : Nat) (v2d m : Array Nat)
     (h : pointToValueMap t faces np v2d = .ok m) :
     m.size = np ∧
-    (∀ p (hp : p < m.size), m[p] = inv ∨ m[p] < np) ∧
-    (∀ k, k < 3 * t.numFaces → ∃ hk : k < faces.size, faces[k] < np) := by
-  unfold pointToValueMap at h
-  obtain ⟨hm, hf⟩ := pointToValueLoop_ok (3 * t.numFaces) 0 _ m (mapOk_replicate np) h
-  exact ⟨hm.1, hm.2, fun k hk => hf k (Nat.zero_le _) (by omega)⟩
+    (∀ p (hp : p < m.size), m[p] < np) ∧
+    (∀ k, k < 3 * t.numFaces → ∃ hk : k < faces.size, faces[k] < np) :=
+  pointToValueMap_ok h
 
 /-- non-vacuity: one triangle, identity vertex → value map -/
 example :
     pointToValueMap { c2v := #[0, 1, 2], opp := #[inv, inv, inv], seam := #[], lm := #[0, 1, 2],
                       isAtt := false, numFaces := 1 } #[0, 1, 2] 3 #[2, 0, 1] = .ok #[2, 0, 1] := by
-  rfl
+  have h : (((Array.replicate 3 4294967295).setIfInBounds 0 2).setIfInBounds 1 0).setIfInBounds 2 1 = #[2, 0, 1] := by
+    decide
+  simp +decide [h, pointToValueMap, pointToValueLoop, pointToValueStep, rd, TView.vertex, bind, Except.bind, pure,
+    Except.pure, raise, inv]
 
 /-- a face index beyond the number of points is rejected -/
 example :
     pointToValueMap { c2v := #[0, 1, 2], opp := #[inv, inv, inv], seam := #[], lm := #[0, 1, 2],
                       isAtt := false, numFaces := 1 } #[0, 1, 7] 3 #[2, 0, 1] = .error .fail := by
-  rfl
+  simp +decide [pointToValueMap, pointToValueLoop, pointToValueStep, rd, TView.vertex, bind, Except.bind, pure,
+    Except.pure, raise, inv, throw, throwThe, MonadExceptOf.throw]
 
 /-- `Previous(Next(c)) = c` -/
 theorem corner_prev_next (c : Nat) (h : c < inv) : Eb.prevC (Eb.nextC c) = c := prevC_nextC c h
